@@ -59,9 +59,10 @@ class Event:
 
 
 class Path:
-    __slots__ = ('events', 'outcome', 'value', 'cls', 'cut')
+    __slots__ = ('events', 'outcome', 'value', 'cls', 'cut', 'lists')
 
     def __init__(self, events, outcome, value=None, cls=None, cut=None):
+        self.lists = None           # param -> final list term (inlined callees mutating a list)
         self.events = events
         self.outcome = outcome      # 'return' | 'raise' | 'cut'
         self.value = value          # return value expr (substituted) or raised expr
@@ -315,12 +316,17 @@ class _Frame:
         events.append(e)
         return e
 
-    def finish(self, events, outcome, value=None, cls=None, cut=None):
+    def finish(self, events, outcome, value=None, cls=None, cut=None, env=None):
         self.en.n_paths += 1
         if self.en.n_paths > self.en.max_paths:
             raise AnalysisError('path explosion in %s (> %d paths)' %
                                 (self.stack[0], self.en.max_paths))
-        self.out.append(Path(list(events), outcome, value, cls, cut))
+        p = Path(list(events), outcome, value, cls, cut)
+        if env is not None and self.rdepth > 0:
+            ls = {a: env[a] for a in self.fi.params() if self._list_shaped(env.get(a))}
+            if ls:
+                p.lists = ls
+        self.out.append(p)
 
     def handler_catches(self, hnode, cls):
         from .cfg import _handler_names, CATCH_ALL
@@ -357,7 +363,7 @@ class _Frame:
             if r is not None:
                 calls.extend(calls_in(r))
 
-        def step(i, repl, events_, raised):
+        def step(i, repl, events_, raised, mut=None):
             if i == len(calls):
                 vals = []
                 for r in raw_exprs:
@@ -366,7 +372,12 @@ class _Frame:
                     else:
                         rr = _replace_by_id(r, repl)
                         vals.append(subst(rr, env))
-                k(vals, events_, raised, self.killed(env, n0, events_, raw_exprs))
+                env_k = self.killed(env, n0, events_, raw_exprs)
+                if mut:
+                    # lists of the caller that an inlined callee appended to
+                    env_k = dict(env_k)
+                    env_k.update(mut)
+                k(vals, events_, raised, env_k)
                 return
             c = calls[i]
             cexpr = subst(_replace_by_id(c, repl), env)
@@ -407,7 +418,7 @@ class _Frame:
                     target = res.funcs[0]
                     silent = True
             if target is None:
-                step(i + 1, repl, events2, raised2)
+                step(i + 1, repl, events2, raised2, mut)
                 return
             callee, cctx = target
             if silent:
@@ -425,6 +436,15 @@ class _Frame:
             sub = self.en.run(callee, ctx=cctx, args=args,
                               depth=self.depth if silent else self.depth + 1,
                               stack=self.stack, rdepth=self.rdepth + 1)
+            # caller locals (lists under construction) passed by name: the callee's appends
+            # are appends to the caller's list
+            alias = {}
+            try:
+                for pn, a in bind_args(callee, c, None, cctx).items():
+                    if isinstance(a, ast.Name) and self._list_shaped(env.get(a.id)):
+                        alias[pn] = a.id
+            except Exception:
+                alias = {}
             # raises contributed by the inlined paths replace the summary
             raised_base = list(raised)
             for p in sub:
@@ -435,7 +455,15 @@ class _Frame:
                 if p.outcome == 'return':
                     repl2 = dict(repl)
                     repl2[id(c)] = p.value if p.value is not None else ast.Constant(None)
-                    step(i + 1, repl2, evs, raised_base)
+                    mut2 = mut
+                    if alias and p.lists:
+                        for pn, name in alias.items():
+                            nv = p.lists.get(pn)
+                            if nv is not None and txt(nv) != txt((mut or {}).get(name,
+                                                                                   env[name])):
+                                mut2 = dict(mut2 or {})
+                                mut2[name] = nv
+                    step(i + 1, repl2, evs, raised_base, mut2)
                 elif p.outcome == 'raise':
                     # exception propagates out of this node: remaining calls are skipped
                     k(None, evs, [('!', p.cls)])
@@ -449,7 +477,8 @@ class _Frame:
         exception currently handled (for re-raise)."""
         kind = node.kind
         if kind == 'exit':
-            self.finish(events, 'return', pending[1] if pending else ast.Constant(None))
+            self.finish(events, 'return', pending[1] if pending else ast.Constant(None),
+                        env=env)
             return
         if kind == 'raise':
             self.finish(events, 'raise', cls=(pending[1] if pending and pending[0] == 'exc'
